@@ -18,12 +18,12 @@ from vmon.libutil import load_definition, monitored
 
 LEVEL = "fault_enumeration"
 SHARDS = {"quick": 16, "thorough": 16}
-MUST = ["cut.cases", "kind.bytes", "kind.bytesio", "kind.file", "kind.realfile", "kind.shortfile", "kind.socket_closed",
+MUST = ["cut.cases", "kind.bytes", "kind.bytesio", "kind.file", "kind.realfile", "kind.realfile_update", "kind.shortfile", "kind.socket_closed",
         "kind.socketpair_closed", "empty.cases", "random.cases", "via_definition.cases", "cut.in_header", "cut.in_body",
         "cut.on_border", "progress.cases", "big.maxsize_cases", "big.beyond20MB_cases", "cli.truncated_runs"]
 RULE = ("fault = end of data at byte offset c of a valid stream; enumerated: every c in 0..len for 6 base streams "
         "(1-4 packets, prefix k in {0,3}, data lengths 1..300) x source kinds {bytes, BytesIO default, "
-        "BytesIO r in {1,7,4096}, recording file, short-read file, real file, scripted socket closed by peer, real "
+        "BytesIO r in {1,7,4096}, recording file, short-read file, real file, real file opened for update and handed over partly unflushed, scripted socket closed by peer, real "
         "socketpair closed by peer} x {ccsds_generator, packet_generator(headers only), packet_generator(definition)}; "
         "plus empty input on every kind and seeded random byte strings. Oracle: model framing of the truncated bytes; "
         "step budget len//7+2. distinct_nontrivial = distinct (source kind, read-size class, entry point, cut class) "
@@ -124,6 +124,20 @@ def _one(ctx, data, k, kind, r, entry, defn, cls, rng, progress):
             os.write(fd, data)
             os.close(fd)
             src = open(tmp, "rb")
+        elif kind == "realfile_update":
+            # a real file opened for update (w+b), written in two pieces with a flush in between - at the border of a complete
+            # packet where there is one - and handed over with the second piece still unflushed
+            fd, tmp = tempfile.mkstemp(prefix="vmon-c10-", dir=os.environ.get("VMON_SCRATCH"))
+            os.close(fd)
+            src = open(tmp, "w+b")
+            ends, pos_ = [], 0
+            for p_ in exp:
+                pos_ += k + len(p_)
+                ends.append(pos_)
+            cutp = rng.choice(ends) if ends and rng.random() < 0.8 else rng.randrange(0, len(data) + 1)
+            src.write(data[:cutp])
+            src.flush()
+            src.write(data[cutp:])
         elif kind == "socket_closed":
             sizes = []
             left = len(data)
@@ -186,7 +200,7 @@ def _one(ctx, data, k, kind, r, entry, defn, cls, rng, progress):
             src.close()
             if th is not None:
                 th.join(5)
-        if kind == "realfile" and src is not None:
+        if kind in ("realfile", "realfile_update") and src is not None:
             src.close()
             os.unlink(tmp)
 
@@ -290,7 +304,7 @@ def run(ctx):
             pos += k + len(p)
         bases.append((stream, k, borders))
     kinds = [("bytes", None), ("bytesio", None), ("bytesio", 1), ("bytesio", 7), ("bytesio", 4096), ("file", None),
-             ("file", 6), ("shortfile", 9), ("realfile", None), ("socket_closed", None), ("socket_closed", 5),
+             ("file", 6), ("shortfile", 9), ("realfile", None), ("realfile_update", None), ("realfile_update", 8), ("socket_closed", None), ("socket_closed", 5),
              ("socketpair_closed", None)]
     entries = ["raw", "headers_only", "definition"]
     item = 0
@@ -309,7 +323,7 @@ def run(ctx):
                     one(ctx, stream[:c], k, kind, r, entry, defn, cls, rng, progress=(item + c) % 5 == 0)
                 ctx.count("cut.cases")
                 ctx.count({"in-header": "cut.in_header", "in-body": "cut.in_body", "on-border": "cut.on_border"}.get(cls, "cut.other"))
-    ctx.exhaustive_space("cut offsets 0..len of 6 base streams x 12 source configurations", 1)
+    ctx.exhaustive_space("cut offsets 0..len of 6 base streams x 14 source configurations", 1)
     # ---- large inputs: a maximum-size packet (65536 data octets) between small ones; a stream beyond the framer's 20 MB
     #      buffer-trim threshold. Cut offsets sampled: around every packet border, inside headers, and the complete stream ----
     big_cases(ctx, defn, rng)
